@@ -30,6 +30,7 @@ import (
 
 	corev1 "k8s.io/api/core/v1"
 	kerrors "k8s.io/apimachinery/pkg/api/errors"
+	kmeta "k8s.io/apimachinery/pkg/api/meta"
 	"k8s.io/apimachinery/pkg/apis/meta/v1/unstructured"
 	"k8s.io/apimachinery/pkg/runtime"
 	"k8s.io/apimachinery/pkg/runtime/schema"
@@ -60,6 +61,17 @@ type c10Tpl struct {
 	Status        any        `json:"status"`  // status of the stored resource (existing ones only)
 	CurSpec       any        `json:"curSpec"` // spec of the stored resource (existing ones only; default {"stored":"x"})
 	Cur           any        `json:"cur"`     // filled by the harness: the stored resource as the API server returns it
+	// Unserved: the template's kind ("Ghost") is one the API server does not serve (CRD not
+	// installed): every Get, Create and Patch of it is answered with a NoKindMatchError. Only for
+	// templates without an existing resource; the REAL name generator (internal/names) runs for
+	// it - its availability probe meets that error, so name generation fails (nameGen = "fail").
+	Unserved bool `json:"unserved,omitempty"`
+}
+
+const c10GhostKind = "Ghost"
+
+func c10NoKindMatch(kind string) error {
+	return &kmeta.NoKindMatchError{GroupKind: schema.GroupKind{Group: "example.org", Kind: kind}, SearchedVersions: []string{"v1"}}
 }
 
 type c10ComposeScn struct {
@@ -87,10 +99,21 @@ type c10RecClient struct {
 	storedOf map[string]any
 }
 
+// Get: a kind the API server does not serve has no REST mapping.
+func (c *c10RecClient) Get(ctx context.Context, key client.ObjectKey, obj client.Object, opts ...client.GetOption) error {
+	if kind := obj.GetObjectKind().GroupVersionKind().Kind; kind == c10GhostKind {
+		return c10NoKindMatch(kind)
+	}
+	return c.Store.Get(ctx, key, obj, opts...)
+}
+
 func (c *c10RecClient) note(verb string, obj client.Object, body any) (string, error) {
 	kind := obj.GetObjectKind().GroupVersionKind().Kind
 	t := c.target(kind, obj.GetName())
 	c.writes = append(c.writes, c10Write{Verb: verb, Target: t})
+	if kind == c10GhostKind {
+		return t, c10NoKindMatch(kind)
+	}
 	if body != nil && t != "xr" {
 		c.bodies = append(c.bodies, body)
 		if c.bodyOf == nil {
@@ -217,6 +240,9 @@ func c10ComposeXR(cs *c10ComposeScn, sel []int) map[string]any {
 	refs := []any{}
 	for _, i := range sel {
 		ref := map[string]any{"apiVersion": "example.org/v1", "kind": "Thing"}
+		if cs.Tpls[i].Unserved {
+			ref["kind"] = c10GhostKind
+		}
 		if cs.Tpls[i].RefName != "" {
 			ref["name"] = cs.Tpls[i].RefName
 		}
@@ -256,6 +282,7 @@ func c10SeedExisting(st *Store, t *c10Tpl) {
 type c10ComposeOut struct {
 	revMutated string
 	ec         string
+	noMatch    bool // Compose returned an error caused by a no-match (unserved kind) error
 	pn         string
 	cl         *c10RecClient
 	xr         *ucomposite.Unstructured
@@ -311,6 +338,10 @@ func c10ComposeOnce(cs *c10ComposeScn, sel []int, faults bool) (*c10ComposeOut, 
 		if cd.GetName() != "" || cd.GetGenerateName() == "" {
 			return nil
 		}
+		if k < len(sel) && cs.Tpls[sel[k]].Unserved {
+			// the real generator of internal/names against the API server that does not serve the kind
+			return names.NewNameGenerator(cl).GenerateName(context.Background(), cd)
+		}
 		if k >= len(sel) || cs.Tpls[sel[k]].NameGen == "fail" || cs.Tpls[sel[k]].NameGen == "" {
 			return errors.New("cannot generate a name")
 		}
@@ -338,6 +369,7 @@ func c10ComposeOnce(cs *c10ComposeScn, sel []int, faults bool) (*c10ComposeOut, 
 	})
 	out.revMutated = c10RevisionMutated(snap, rev)
 	out.ec = c10ComposeErrClass(cerr)
+	out.noMatch = cerr != nil && (kmeta.IsNoMatchError(errors.Unwrap(cerr)) || strings.Contains(cerr.Error(), "no matches for kind"))
 	if out.pn != "" {
 		out.ec = "panic"
 	}
@@ -639,6 +671,8 @@ func c10RunCompose(s *c10Scn) (any, []Mon, string) {
 		if allNamed && t.RefName == "" {
 			// the by-name associator leaves the reference of a template without a resource empty
 			t.RefKind, t.RefAPIVersion = "", ""
+		} else if t.Unserved {
+			t.RefKind, t.RefAPIVersion = c10GhostKind, "example.org/v1"
 		} else if t.RefKind == "" {
 			t.RefKind, t.RefAPIVersion = "Thing", "example.org/v1"
 		}
@@ -681,6 +715,27 @@ func c10RunCompose(s *c10Scn) (any, []Mon, string) {
 	}
 	if strings.HasPrefix(ec, "other:") {
 		mons = append(mons, Mon{Sig: "C10:unclassified-error", Why: ec})
+	}
+	// A composed resource whose name generation failed is skipped "while the other resources still
+	// are" composed: a new resource of a kind the API server does not serve cannot be given a
+	// verified name, so it must be left out of this reconcile - Compose must not come back with
+	// that kind's no-match error, and the templates after it must still be written.
+	for i := range cs.Tpls {
+		if !cs.Tpls[i].Unserved || cs.Tpls[i].RefName != "" || !run.noMatch {
+			continue
+		}
+		seen := map[string]bool{}
+		for _, w := range cl.writes {
+			seen[w.Target] = true
+		}
+		left := []string{}
+		for j := i + 1; j < len(cs.Tpls); j++ {
+			if !seen[fmt.Sprint(j)] {
+				left = append(left, fmt.Sprint(j))
+			}
+		}
+		mons = append(mons, Mon{Sig: "C10:name-failure-blocks-other-templates", Why: fmt.Sprintf("template %d is a new resource of a kind the API server does not serve (its name cannot be generated): instead of skipping it Compose failed with that kind's no-match error (%s); templates never written in this reconcile: %v", i, ec, left)})
+		break
 	}
 	if run.revMutated != "" {
 		mons = append(mons, Mon{Sig: "C10:revision-mutated", Why: "Compose wrote to the CompositionRevision it was handed: " + run.revMutated})
@@ -813,7 +868,17 @@ func c10RunCompose(s *c10Scn) (any, []Mon, string) {
 		// no existing resource: the apply options never run
 		opts += "-allnew"
 	}
-	return obs, mons, fmt.Sprintf("compose/opts=%s/unrendered=%d/%s", opts, c10Cap(nun, 1), c10Or(ec, "ok"))
+	unserved := ""
+	for i := range cs.Tpls {
+		if cs.Tpls[i].Unserved {
+			unserved = "unserved-kind/"
+			if i+1 < len(cs.Tpls) {
+				unserved = "unserved-kind-then-others/"
+			}
+			break
+		}
+	}
+	return obs, mons, fmt.Sprintf("compose/%sopts=%s/unrendered=%d/%s", unserved, opts, c10Cap(nun, 1), c10Or(ec, "ok"))
 }
 
 // c10MaskNumbers: the simulated API server decodes a merge patch through float64, so integers
@@ -1068,6 +1133,8 @@ func c10GenComposeScn(r *Rng) *c10Scn {
 		if r.Chance(1, 6) {
 			t.NameGen = "fail"
 		}
+		// a new resource of a kind the API server does not serve (provider not installed yet)
+		unserved := !existing && r.Chance(1, 7)
 		switch r.Intn(10) {
 		case 0:
 			t.Apply = "invalid"
@@ -1080,6 +1147,10 @@ func c10GenComposeScn(r *Rng) *c10Scn {
 		}
 		if r.Chance(1, 30) {
 			base["kind"] = "Other"
+		}
+		if unserved {
+			t.Unserved, t.NameGen, t.RefKind, t.RefAPIVersion = true, "fail", c10GhostKind, "example.org/v1"
+			base["kind"] = c10GhostKind
 		}
 		t.BaseSrc = mustJSON(base)
 		if r.Chance(1, 40) {
